@@ -12,6 +12,8 @@ import (
 	"encoding/json"
 	"fmt"
 	"math"
+	"os"
+	"path/filepath"
 	"reflect"
 	"sort"
 	"strings"
@@ -54,6 +56,9 @@ type hist struct {
 	Kind    string `json:"store"`
 	Preload int    `json:"preload"`
 	Ops     []sop  `json:"ops"`
+	// Closing: the history is followed by the closing sequence (see closing)
+	Closing bool `json:"closing,omitempty"`
+	Full    bool `json:"full_battery,omitempty"`
 }
 
 type world struct {
@@ -376,6 +381,24 @@ func (w *world) battery() (queries int) {
 	return queries + w.overlappingStreams()
 }
 
+// closing is the closing sequence for a history the search does not extend (it reaches a
+// state examined before, or the depth limit): reads are not part of the alphabet because
+// they do not change a conforming store - but they may change what an implementation
+// remembers (a cached tail, a warmed-up statement, a pooled reader) - so after the queries
+// of the history the log is extended by two events, queried completely, an offset is
+// saved, the store is reopened, extended once more and queried again.
+func (w *world) closing(kind string) (q int) {
+	L := len(w.log) - 1
+	if w.apply(kind, sop{K: "append"}) && w.apply(kind, sop{K: "append"}) {
+		L += 2
+		q += w.battery()
+		if w.apply(kind, sop{K: "save", ID: "a", Pos: L}) && w.apply(kind, sop{K: "reopen"}) && w.apply(kind, sop{K: "append"}) {
+			q += w.light()
+		}
+	}
+	return q
+}
+
 // overlappingStreams: a stream the consumer abandons, a stream whose context is cancelled
 // after the first event, and then two streams open at the same time (one started inside
 // the loop body of the other, at every element): each must still yield the log. Streaming
@@ -417,9 +440,34 @@ func (w *world) overlappingStreams() (queries int) {
 			}
 		}
 	}
-	// abandoned by the consumer
-	for range w.hd.Stream.ReadStream(bg, eventbus.OffsetOldest) {
-		break
+	// abandoned by the consumer after k events; the very next read resumes from the offset
+	// of the event it stopped at
+	for k := 1; k <= len(w.log); k++ {
+		n := 0
+		var lastOff eventbus.Offset
+		for e, er := range w.hd.Stream.ReadStream(bg, eventbus.OffsetOldest) {
+			if er != nil {
+				break
+			}
+			n++
+			lastOff = e.Offset
+			if n == k {
+				break
+			}
+		}
+		if n != k {
+			continue // reported by the plain stream queries
+		}
+		queries += 2
+		if k%2 == 1 {
+			evs, _, err := w.hd.Store.Read(bg, lastOff, 0)
+			var got []*eventbus.StoredEvent
+			got = append(got, evs...)
+			check(fmt.Sprintf("Read from the offset of the event at which the consumer abandoned a stream"), got, err, w.log[k:])
+		} else {
+			got, err := collect(bg, lastOff, nil)
+			check(fmt.Sprintf("a stream from the offset of the event at which the consumer abandoned the previous stream"), got, err, w.log[k:])
+		}
 	}
 	// cancelled after the first event (the rest may or may not arrive; an error is fine)
 	cctx, cancel := context.WithCancel(bg)
@@ -506,7 +554,7 @@ func searchStructure(c *h.Check, kind string, preload, depth int, idx *int) {
 		if !c.Mine(*idx) || c.TimeUp() {
 			return
 		}
-		hs := hist{Kind: kind, Preload: preload, Ops: ops}
+		hs := hist{Kind: kind, Preload: preload, Ops: ops, Closing: closing, Full: full}
 		viol := func(clause, facts, detail string) {
 			sig := fmt.Sprintf("store=%s %s", kind, clause)
 			if facts != "" {
@@ -521,21 +569,8 @@ func searchStructure(c *h.Check, kind string, preload, depth int, idx *int) {
 		} else if ok {
 			q = w.light()
 		}
-		// Closing sequence for a history the search does not extend (it reaches a state
-		// examined before, or the depth limit): reads are not part of the alphabet because
-		// they do not change a conforming store - but they may change what an implementation
-		// remembers (a cached tail, a warmed-up statement, a pooled reader) - so after the
-		// queries above the log is extended by two events, queried completely, an offset is saved, the
-		// store is reopened and queried again.
 		if ok && closing {
-			L := len(w.log) - 1
-			if w.apply(kind, sop{K: "append"}) && w.apply(kind, sop{K: "append"}) {
-				L += 2
-				q += w.battery()
-				if w.apply(kind, sop{K: "save", ID: "a", Pos: L}) && w.apply(kind, sop{K: "reopen"}) && w.apply(kind, sop{K: "append"}) {
-					q += w.light()
-				}
-			}
+			q += w.closing(kind)
 			c.Count("histories_closed_with_the_closing_sequence", 1)
 		}
 		w.close()
@@ -752,6 +787,79 @@ func memoryIsolation(c *h.Check) {
 			fmt.Sprintf("an event appended to the first store is returned by Read on the second (%d events, saved offset %q)", len(evs), off), map[string]any{"memory_isolation": true})
 	}
 }
+
+// nestedCalls: store calls made from inside the loop body of a stream, and a
+// SubscribeWithReplay (which saves an offset after every replayed event), on an in-memory
+// and on a file SQLite store, with and without a stream batch size. None of them may block:
+// the calls run in a goroutine of their own and must be back within a minute (they take
+// microseconds; the limit only turns a store that waits for itself - a single pooled
+// connection held by the open cursor, say - into a verdict instead of a hung check).
+func nestedCalls(c *h.Check) {
+	dir, err := os.MkdirTemp("", "ebuverif-c10-nested-")
+	if err != nil {
+		vrt.MachineryFault("%v", err)
+	}
+	defer os.RemoveAll(dir)
+	type variant struct {
+		name string
+		open func() (*sqlite.SQLiteStore, error)
+	}
+	vs := []variant{
+		{"in-memory", func() (*sqlite.SQLiteStore, error) { return sqlite.New(":memory:") }},
+		{"in-memory, stream batch 2", func() (*sqlite.SQLiteStore, error) { return sqlite.New(":memory:", sqlite.WithStreamBatchSize(2)) }},
+		{"file", func() (*sqlite.SQLiteStore, error) { return sqlite.New(filepath.Join(dir, "a.db")) }},
+		{"file, stream batch 2", func() (*sqlite.SQLiteStore, error) {
+			return sqlite.New(filepath.Join(dir, "b.db"), sqlite.WithStreamBatchSize(2))
+		}},
+	}
+	for _, v := range vs {
+		c.Count("evaluations", 1)
+		st, err := v.open()
+		if err != nil {
+			vrt.MachineryFault("open %s: %v", v.name, err)
+		}
+		for i := 1; i <= 3; i++ {
+			st.Append(bg, &eventbus.Event{Type: eventbus.EventType(nestedEv{}), Data: json.RawMessage(fmt.Sprintf(`{"N":%d}`, i)), Timestamp: time.Unix(int64(i), 0).UTC()})
+		}
+		done := make(chan string, 1)
+		go func() {
+			msg := ""
+			n := 0
+			for _, er := range st.ReadStream(bg, eventbus.OffsetOldest) {
+				if er != nil {
+					break
+				}
+				n++
+				if evs, _, err := st.Read(bg, eventbus.OffsetOldest, 0); err == nil && len(evs) < 3 {
+					msg = fmt.Sprintf("Read made from inside a stream's loop body returned %d of 3 events", len(evs))
+				}
+				st.SaveOffset(bg, "inner", eventbus.Offset(fmt.Sprint(n)))
+				st.LoadOffset(bg, "inner")
+			}
+			bus := eventbus.New(eventbus.WithStore(st))
+			got := 0
+			if err := eventbus.SubscribeWithReplay(bg, bus, "nested-sub", func(nestedEv) { got++ }); err != nil {
+				msg = "SubscribeWithReplay failed: " + err.Error()
+			} else if got != 3 {
+				msg = fmt.Sprintf("SubscribeWithReplay replayed %d of 3 events", got)
+			}
+			done <- msg
+		}()
+		select {
+		case msg := <-done:
+			if msg != "" {
+				c.Violate("nested-calls", "store=sqlite ("+v.name+"): "+msg, msg, map[string]any{"nested_calls": v.name})
+			}
+			st.Close()
+		case <-time.After(60 * time.Second):
+			c.Violate("nested-calls", "store=sqlite ("+v.name+"): a store call made from inside a stream's loop body, or SubscribeWithReplay, did not return (blocked for a minute)",
+				"three events; Read, SaveOffset and LoadOffset inside the loop body of ReadStream, then SubscribeWithReplay on a bus over the store", map[string]any{"nested_calls": v.name})
+			// the store is left behind: closing it would wait for the blocked call
+		}
+	}
+}
+
+type nestedEv struct{ N int }
 
 // ---------------------------------------------------------------- schedules on MemoryStore
 
@@ -986,6 +1094,9 @@ func run(c *h.Check) {
 	if c.Worker == 0 {
 		memoryIsolation(c)
 	}
+	if c.Worker == 1%c.NWorkers {
+		nestedCalls(c)
+	}
 	bound := 2
 	if c.Thorough() {
 		bound = 3
@@ -1010,6 +1121,12 @@ func replay(c *h.Check, rf *h.ReplayFile) []vrt.Violation {
 	var probe map[string]any
 	json.Unmarshal(rf.Ops, &probe)
 	switch {
+	case probe["nested_calls"] != nil:
+		c2 := &h.Check{Prop: "C10", NWorkers: 1}
+		nestedCalls(c2)
+		for _, f := range c2.P.Found {
+			add(f.Kind, f.Sig, f.Detail)
+		}
 	case probe["memory_isolation"] != nil:
 		c2 := &h.Check{Prop: "C10", NWorkers: 1}
 		memoryIsolation(c2)
@@ -1026,8 +1143,13 @@ func replay(c *h.Check, rf *h.ReplayFile) []vrt.Violation {
 			}
 			add(clause, sig, detail)
 		})
-		if ok {
+		if ok && (hs.Full || !hs.Closing) {
 			w.battery()
+		} else if ok {
+			w.light()
+		}
+		if ok && hs.Closing {
+			w.closing(hs.Kind)
 		}
 		w.close()
 	default:
